@@ -168,7 +168,10 @@ class DispDouble:
                 r.exit_errors.setdefault(self.bid, []).append(exc)
                 raise exc
             r.ev("d-exit-end", self.name, "ok")
-            return None
+            # "handled": a disposable whose exit claims to have handled the exception (returns
+            # True, like a context manager built with @asynccontextmanager that catches around its
+            # yield) - the scope does not let that swallow the body's exception
+            return True if self.spec.get("handles") else None
         except asyncio.CancelledError:
             r.ev("d-exit-end", self.name, "cancelled")
             raise
